@@ -780,7 +780,7 @@ Definition good (cfg : config) (s : state) (o : op) : Prop :=
   | OEndBlock => some_active (joined s)
   | ORotate v v' => good_rotate s v v'
   | OGenesis _ => some_active_now s
-  | OSetProp _ _ _ => True
+  | OUpgrade | OSetProp _ _ _ => True
   end.
 Fixpoint goods (cfg : config) (s : state) (ops : list op) : Prop :=
   match ops with [] => True | o :: r => good cfg s o /\ goods (next_cfg cfg o) (fst (step cfg s o)) r end.
@@ -913,6 +913,7 @@ Proof.
     destruct (end_block_applicable_and_equal s I G) as (c' & E & _ & _ & I'). rewrite E. exact I'.
   - (* address rotation *) now apply (Inv_rotate cfg).
   - (* genesis export + import *) cbn [step]. now apply Inv_genesis.
+  - (* second block of an upgrade plan *) cbn [step fst]. exact I.
   - (* settings change *) cbn [step fst]. exact I.
 Qed.
 
@@ -1047,7 +1048,7 @@ Definition goodb (cfg : config) (s : state) (o : op) : bool :=
                     && (match lookup v' (st_vals s) with None => true | Some _ => false end)
                     && (match lookup v' (st_pend s) with None => true | Some _ => false end)
   | OGenesis _ => some_activeb s
-  | OSetProp _ _ _ => true
+  | OUpgrade | OSetProp _ _ _ => true
   end.
 Fixpoint goodsb (cfg : config) (s : state) (ops : list op) : bool :=
   match ops with [] => true | o :: r => goodb cfg s o && goodsb (next_cfg cfg o) (fst (step cfg s o)) r end.
@@ -1549,7 +1550,7 @@ Definition edge_ok (o : op) (v : Z) (a b : status) : Prop :=
   | OUnjail t => v = t /\ a = SJailed /\ b = SInactive
   | OReset => b = SActive
   | OUpPause vs => In v vs /\ a = SActive /\ b = SPaused
-  | OClaim _ _ _ | ONewBlock _ | OEndBlock | OGenesis _ | OSetProp _ _ _ => False
+  | OClaim _ _ _ | ONewBlock _ | OEndBlock | OGenesis _ | OUpgrade | OSetProp _ _ _ => False
   | ORotate _ t' => v = t'     (* only when the target address already held a validator record, which the real message excludes *)
   end.
 
@@ -1588,6 +1589,7 @@ Proof.
     exfalso. assert (E : st_vals (fst (genesis_import over s)) = st_vals s).
     { unfold genesis_import. destruct (genesis_updates s); [reflexivity|]. destruct (apply_updates _ _); reflexivity. }
     cbn [step] in Hb. unfold status_at in Ha, Hb. rewrite E in Hb. congruence.
+  - cbn [step fst] in Hb. congruence.
   - (* a settings change touches no validator *) cbn [step fst] in Hb. congruence.
 Qed.
 
@@ -1710,6 +1712,7 @@ Proof.
     destruct (x =? v); [discriminate|apply N].
   - eapply nonneg_ext; [|exact N]. unfold genesis_import.
     destruct (genesis_updates s); [reflexivity|]. destruct (apply_updates _ _); reflexivity.
+  - exact N.
   - exact N.
 Qed.
 (* every settings change keeps the settings well-formed (what the gov module's validation guarantees) *)
